@@ -35,6 +35,7 @@ type WInjector struct {
 	Want  TypeID
 	Err   bool
 	Elems []WElem
+	Panic bool `json:",omitempty"` // body is panic(wire.Build(...)) instead of wire.Build(...); return zero
 }
 
 type WFile struct {
@@ -81,7 +82,7 @@ type WOpts struct {
 }
 
 var WireFeatures = []string{"bind", "bind-value-impl", "value", "ivalue", "struct", "struct-fields", "struct-value-consumer", "fieldsof", "fieldsof-value", "fieldsof-ptr",
-	"sets", "nested-sets", "inline-sets", "inline-sets-deep", "struct-unexported-field", "ext-alias-suffix", "ext-name-differs-from-path", "composite", "same-name-packages-across-files", "fieldsof-twice", "second-injector", "twin-types-in-same-named-packages", "value-ext-var", "value-ext-nested-selector", "decoy-constructor-in-migrated-package", "struct-in-ext-package", "fieldsof-in-ext-package", "err", "args", "unused-arg", "multi-file", "ext", "bind-foreign-ctor", "bind-split-set", "multi-result"}
+	"sets", "nested-sets", "inline-sets", "inline-sets-deep", "struct-unexported-field", "ext-alias-suffix", "ext-name-differs-from-path", "composite", "same-name-packages-across-files", "fieldsof-twice", "second-injector", "twin-types-in-same-named-packages", "value-ext-var", "build-in-panic", "value-ext-nested-selector", "decoy-constructor-in-migrated-package", "struct-in-ext-package", "fieldsof-in-ext-package", "err", "args", "unused-arg", "multi-file", "ext", "bind-foreign-ctor", "bind-split-set", "multi-result"}
 
 func WAllowAll(except ...string) map[string]bool {
 	m := map[string]bool{}
@@ -718,7 +719,7 @@ func (g *wgen) assemble() {
 			}
 		}
 	}
-	inj := WInjector{Name: "Init" + letters(0), Want: want}
+	inj := WInjector{Name: "Init" + letters(0), Want: want, Panic: g.want("build-in-panic", "buildpanic", 35)}
 	for _, a := range g.args {
 		if argUsed[a] {
 			inj.Args = append(inj.Args, a)
@@ -952,7 +953,7 @@ func (g *wgen) assemble() {
 					}
 				}
 			}
-			in2 := WInjector{Name: "Init" + letters(1), Want: g.provides[root][0]}
+			in2 := WInjector{Name: "Init" + letters(1), Want: g.provides[root][0], Panic: g.want("build-in-panic", "buildpanic2", 35)}
 			ok := true
 			for u := range g.units {
 				if !need2[u] {
